@@ -4,6 +4,9 @@
 store it as /verif/seeded/<name>/ (patch.diff, seed_demo.rs, notes.md, meta.json)."""
 import json, os, re, shutil, subprocess, sys
 VERIF = os.path.dirname(os.path.dirname(os.path.abspath(__file__)))
+API = "--api" in sys.argv
+if API:
+    sys.argv.remove("--api")
 prop = sys.argv[1]
 name = sys.argv[2] if len(sys.argv) > 2 else prop.lower() + "-agent-1"
 wt, out = sys.argv[3] if len(sys.argv) > 3 else "/tmp/wt-" + prop, sys.argv[4] if len(sys.argv) > 4 else "/tmp/out-" + prop
@@ -14,6 +17,9 @@ suite_ok = re.match(r"(\d+) passed 0 failed", res.get("suite_with_change", "")) 
 with_fail = "FAILED" in res.get("demo_with_change", "")
 without_ok = res.get("demo_without_change", "").startswith("test result: ok")
 confirmed = bool(suite_ok and with_fail and without_ok)
+if API:
+    # an added public API: the demo's assertions hold exactly when the property is violated, and it cannot be built without the addition
+    confirmed = bool(suite_ok and res.get("demo_with_change", "").startswith("test result: ok") and res.get("demo_without_change", "").startswith("error"))
 allp = ["C%02d" % i for i in range(1, 21)]
 p = subprocess.run([sys.executable, os.path.join(VERIF, "selftest", "mutate.py"), "--patch", os.path.join(out, "patch.diff")] + allp, stdout=subprocess.PIPE, stderr=subprocess.STDOUT)
 text = p.stdout.decode()
@@ -38,6 +44,7 @@ notes = open(os.path.join(out, "notes.md")).read() if os.path.exists(os.path.joi
 meta = {
     "id": name,
     "property": prop,
+    "kind": "added public API (demo passes with the addition and documents the violating behaviour; it does not build without it)" if API else "changed behaviour of existing code",
     "origin": "independent sub-agent given only the property text and a scratch worktree of /repo (HEAD %s)" % subprocess.check_output(["git", "-C", "/repo", "rev-parse", "--short", "HEAD"]).decode().strip(),
     "confirmed_by_me": confirmed,
     "what_i_ran": [
